@@ -134,8 +134,7 @@ def run(chk, prog):
     ev = mm.events()
 
     ob_ids_early = {y["id"] for y in A.walk(mm.output_block()["then"])}
-    fb_ids_early = {y["id"] for x_ in A.walk(mainf["body"]) if x_["k"] == "IfStmt" and x_["line"] > loop["line"] and x_["id"] not in loop_ids and
-                    M.MainModel.null_test(x_["cond"]) == ("hdf_file", True) for y in A.walk(x_["then"])}
+    fb_ids_early = {y["id"] for y in A.walk(mm.final_block()[0]["then"])}
     const_locals = {}
     for st_ in A.walk(mainf["body"]):
         if st_.get("k") == "DeclStmt":
@@ -169,10 +168,7 @@ def run(chk, prog):
     outs = [mm.output_block()]
     ob = outs[0]
     ob_ids = {y["id"] for y in A.walk(ob["then"])}
-    fin = [x for x in A.walk(mainf["body"]) if x["k"] == "IfStmt" and x["line"] > loop["line"] and x["id"] not in loop_ids and
-           M.MainModel.null_test(x["cond"]) == ("hdf_file", True)]
-    A.require(len(fin) >= 1, "main: final-record block not found")
-    fb = fin[0]
+    fb, _fconj = mm.final_block()
     fb_ids = {y["id"] for y in A.walk(fb["then"])}
     lc = block_calls(lambda n: n["id"] in ob_ids)
     fc = block_calls(lambda n: n["id"] in fb_ids)
